@@ -107,11 +107,24 @@ func ruleEffectWrite(c *Ctx, r *Rep) {
 			switch cc.Method.Name() {
 			case "WriteFile":
 				_, ok := allowedWriters[c.FuncKey(fn)]
-				r.Check(ok, "writer|"+c.FuncKey(fn), c.Pos(ci.Pos()), "Filesystem.WriteFile is invoked only by the PEM export and PutConfig", c.FuncKey(fn))
-				if !ok {
+				if ok {
+					r.Ok("writer|"+c.FuncKey(fn), c.Pos(ci.Pos()), "Filesystem.WriteFile is invoked only by the PEM export and PutConfig", c.FuncKey(fn))
+					checkWriteSite(c, r, fn, ci, nil)
 					continue
 				}
-				checkWriteSite(c, r, fn, ci)
+				// a helper that writes on behalf of one of them: every static caller chain ends in an allowed writer
+				roots, only := writerRoots(c, fn, allowedWriters, 0)
+				r.Check(only && len(roots) > 0, "writer|"+c.FuncKey(fn), c.Pos(ci.Pos()), "Filesystem.WriteFile is invoked only by the PEM export and PutConfig (or a helper only they call)", c.FuncKey(fn))
+				if !only {
+					continue
+				}
+				for _, root := range roots {
+					for _, site := range callsIn(root) {
+						if reachesStatically(c, site.Common().StaticCallee(), fn, 0) {
+							checkWriteSite(c, r, root, ci, site)
+						}
+					}
+				}
 			case "DeleteFile":
 				r.Bad("deleter|"+c.FuncKey(fn), c.Pos(ci.Pos()), "no module code deletes files", c.FuncKey(fn))
 			}
@@ -135,10 +148,23 @@ func ruleEffectWrite(c *Ctx, r *Rep) {
 	}
 }
 
-func checkWriteSite(c *Ctx, r *Rep, fn *ssa.Function, ci ssa.CallInstruction) {
+// checkWriteSite checks the write ci made by fn itself (site nil) or by a helper that fn calls at site.
+func checkWriteSite(c *Ctx, r *Rep, fn *ssa.Function, ci ssa.CallInstruction, site ssa.CallInstruction) {
 	pv := c.newProv()
 	fk := c.FuncKey(fn)
 	nameArg := ci.Common().Args[0]
+	origins := func(v ssa.Value) []string {
+		if site == nil {
+			return pv.Origins(v)
+		}
+		var out []string
+		pv.inFrames(fn, 3, nil, func(fr frame) {
+			if fr.fn == ci.Parent() {
+				out = pv.here(v)
+			}
+		})
+		return out
+	}
 	if strings.HasSuffix(fk, "exportPemFile") || strings.Contains(strings.ToLower(fk), "export") {
 		// name = <meta>.artifactFileName(): a method building configFileName[:LastIndex(configFileName, ".")] + ".pem"
 		call, ok := nameArg.(*ssa.Call)
@@ -192,15 +218,23 @@ func checkWriteSite(c *Ctx, r *Rep, fn *ssa.Function, ci ssa.CallInstruction) {
 	}
 	// PutConfig: only for an alias that was not known
 	guarded := false
-	for _, g := range guardsOf(ci.Block()) {
-		if ex, ok := g.Cond.(*ssa.Extract); ok && ex.Index == 1 && !g.Truth {
+	gs := guardsOf(ci.Block())
+	if site != nil {
+		gs = append(gs, guardsOf(site.Block())...)
+	}
+	for _, g := range gs {
+		cond, truth := g.Cond, g.Truth
+		if u, isNot := cond.(*ssa.UnOp); isNot && u.Op == token.NOT {
+			cond, truth = u.X, !truth
+		}
+		if ex, ok := cond.(*ssa.Extract); ok && ex.Index == 1 && !truth {
 			if lk, ok := ex.Tuple.(*ssa.Lookup); ok && lk.CommaOk {
 				guarded = true
 			}
 		}
 	}
 	r.Check(guarded, "putconfig-only-new|"+fk, c.Pos(ci.Pos()), "the configuration file is written only when the alias did not exist (existing configuration files are never rewritten)", sprintf("%v", guarded))
-	o := pv.Origins(nameArg)
+	o := origins(nameArg)
 	okName := len(o) == 1 && strings.HasPrefix(o[0], "+(P(") && strings.Contains(o[0], "K(\".yaml\")")
 	r.Check(okName, "putconfig-name|"+fk, c.Pos(ci.Pos()), "alias + \".yaml\"", strings.Join(o, ","))
 }
@@ -273,44 +307,45 @@ func ruleAbortBeforeWrite(c *Ctx, r *Rep) {
 	if cli == nil {
 		return
 	}
-	var open, plan, bulk ssa.CallInstruction
-	for _, ci := range callsIn(cli) {
-		cc := ci.Common()
-		switch {
-		case cc.IsInvoke() && cc.Method.Name() == "Open":
-			open = ci
-		case cc.StaticCallee() != nil && cc.StaticCallee() == entries["db.PlanBulkUpdate"]:
-			plan = ci
-		case cc.StaticCallee() != nil && cc.StaticCallee() == entries["db.BulkUpdate"]:
-			bulk = ci
-		}
-	}
+	host, open, plan, bulk := c.cliSteps()
 	if open == nil || plan == nil || bulk == nil {
 		r.Undecided("shape:cli-sign", c.FnPos(cli), "Open / PlanBulkUpdate / BulkUpdate calls not all found")
 		return
 	}
+	_ = host
 	for _, st := range []struct {
 		name string
-		ci   ssa.CallInstruction
-		next ssa.CallInstruction
+		this *cliStep
+		next *cliStep
 	}{{"open", open, plan}, {"plan", plan, bulk}} {
-		e, _ := errValueOf(st.ci)
+		e, _ := errValueOf(st.this.call)
 		ok := false
 		how := "error discarded"
 		if e != nil {
-			ok, how = propagates(c, e, st.ci)
+			ok, how = propagates(c, e, st.this.call)
 		}
 		// the next step lies on the err == nil side
 		if ok {
 			entry, _ := nonNilRegion(e)
-			if entry != nil && entry.Dominates(st.next.Block()) {
+			if st.this.owner == st.next.owner && entry != nil && entry.Dominates(st.next.call.Block()) {
 				ok, how = false, "the next step is on the error branch"
 			}
-			if !instrDominates(st.ci, st.next) {
+			if !instrDominates(st.this.site, st.next.site) {
 				ok, how = false, "the next step is not dominated by this one"
 			}
+			if st.this.owner != host {
+				// inside a helper: the error must end the process there (a helper that returns the error is followed by
+				// the chain rules, not by this one)
+				if !strings.Contains(how, "exit") && !strings.Contains(how, "Exit") {
+					for _, ci := range callsIn(st.this.owner) {
+						if calleeFullName(ci) == "os.Exit" {
+							how += " (helper ends the process)"
+						}
+					}
+				}
+			}
 		}
-		r.Check(ok, "cli-stops-on-error|"+st.name, c.Pos(st.ci.Pos()), "an error ends the process with a non-zero status before the next step", how)
+		r.Check(ok, "cli-stops-on-error|"+st.name, c.Pos(st.this.call.Pos()), "an error ends the process with a non-zero status before the next step", how)
 	}
 }
 
@@ -322,23 +357,16 @@ func ruleGuardConsent(c *Ctx, r *Rep) {
 		return
 	}
 	pv := c.newProv()
-	var bulk, plan *ssa.Call
-	for _, ci := range callsIn(cli) {
-		if f := ci.Common().StaticCallee(); f != nil {
-			if f == entries["db.BulkUpdate"] {
-				bulk = ci.(*ssa.Call)
-			}
-			if f == entries["db.PlanBulkUpdate"] {
-				plan = ci.(*ssa.Call)
-			}
-		}
-	}
-	if bulk == nil || plan == nil {
+	host, _, planStep, bulkStep := c.cliSteps()
+	if bulkStep == nil || planStep == nil {
 		r.Undecided("shape:cli-sign", c.FnPos(cli), "BulkUpdate / PlanBulkUpdate call not found")
 		return
 	}
-	listO := pv.Origins(bulk.Call.Args[1])
-	planO := pv.Origins(plan)
+	// from here on "cli" is the function that sequences the steps, "bulk" the call in it that leads to generation
+	cli = host
+	bulk := bulkStep.site
+	listO := bulkStep.originsIn(pv, host, bulkStep.call.Call.Args[1])
+	planO := planStep.originsIn(pv, host, planStep.call)
 	r.Check(len(listO) == 1 && len(planO) == 1 && listO[0] == planO[0]+"#0", "generates-the-plan", c.Pos(bulk.Pos()), "BulkUpdate executes exactly the planned change list", strings.Join(listO, ","))
 	if len(planO) != 1 {
 		return
@@ -572,7 +600,7 @@ func ruleGuardConsent(c *Ctx, r *Rep) {
 	r.Check(nFlag == 1 && nConsent == 1, "entry-edges", c.Pos(bulk.Pos()), "exactly two ways into generation: nothing is overwritten, or the user consented", sprintf("%d flag edges, %d consent edges", nFlag, nConsent))
 
 	// a refusal ends the process: from the refusing side of the consent test generation cannot be reached
-	host := cli
+	host = cli
 	target := B
 	if gate != nil {
 		host = gate.Call.StaticCallee()
@@ -1070,6 +1098,28 @@ func ruleEffectDet(c *Ctx, r *Rep) {
 		pv := c.newProv()
 		for _, ci := range cis {
 			o := pv.Origins(ci.Common().Args[0])
+			// the configuration may arrive as a parameter of a rendering helper: what its callers hand in
+			if len(o) == 1 {
+				for i, prm := range fn.Params {
+					if !strings.HasPrefix(o[0], "P("+c.FuncKey(fn)+"."+prm.Name()+")") {
+						continue
+					}
+					rest := strings.TrimPrefix(o[0], "P("+c.FuncKey(fn)+"."+prm.Name()+")")
+					var via []string
+					for _, caller := range c.Funcs {
+						for _, site := range callsIn(caller) {
+							if site.Common().StaticCallee() == fn && i < len(site.Common().Args) {
+								for _, ao := range pv.Origins(site.Common().Args[i]) {
+									via = append(via, ao+rest)
+								}
+							}
+						}
+					}
+					if len(via) > 0 {
+						o = uniq(via)
+					}
+				}
+			}
 			ok := len(o) == 1 && strings.Contains(o[0], ".configs[]")
 			r.Check(ok, "hash-of-stored-config|"+c.FuncKey(fn), c.Pos(ci.Pos()), "the hash written next to the certificate is that of the configuration stored for the alias (the merged one, after PutConfig)", strings.Join(o, ","))
 		}
@@ -1181,4 +1231,145 @@ func osConst(c *Ctx, name string) int64 {
 		}
 	}
 	return 0
+}
+
+// writerRoots: the allowed writers fn writes on behalf of, and whether every static caller chain of fn ends in one.
+func writerRoots(c *Ctx, fn *ssa.Function, allowed map[string]string, depth int) ([]*ssa.Function, bool) {
+	if _, ok := allowed[c.FuncKey(fn)]; ok {
+		return []*ssa.Function{fn}, true
+	}
+	if depth > 2 {
+		return nil, false
+	}
+	var roots []*ssa.Function
+	n := 0
+	for _, caller := range c.Funcs {
+		for _, ci := range callsIn(caller) {
+			if ci.Common().StaticCallee() != fn {
+				continue
+			}
+			n++
+			rs, only := writerRoots(c, caller, allowed, depth+1)
+			if !only {
+				return nil, false
+			}
+			roots = append(roots, rs...)
+		}
+	}
+	if n == 0 {
+		return nil, false // not called statically: it may be reached in ways the rule does not see
+	}
+	return roots, true
+}
+
+func reachesStatically(c *Ctx, from, to *ssa.Function, depth int) bool {
+	if from == nil || depth > 2 {
+		return false
+	}
+	if from == to {
+		return true
+	}
+	for _, ci := range callsIn(from) {
+		if g := ci.Common().StaticCallee(); g != nil && c.InModule(g) && g.Blocks != nil && reachesStatically(c, g, to, depth+1) {
+			return true
+		}
+	}
+	return false
+}
+
+// cliStep: one of the three steps of the sign command as seen from the function that sequences them.
+type cliStep struct {
+	site  *ssa.Call     // the call in the sequencing function (the step itself, or the helper that contains it)
+	call  *ssa.Call     // the step: Open / PlanBulkUpdate / BulkUpdate
+	owner *ssa.Function // the function that contains call
+}
+
+// cliSteps finds the function that sequences open, plan and generate: the sign closure itself, or - when the closure only
+// hands over to a run function - the deepest function from which the three steps are reached through different calls.
+func (c *Ctx) cliSteps() (host *ssa.Function, open, plan, bulk *cliStep) {
+	entries, _ := c.entryPoints()
+	cli := entries["cli.sign"]
+	if cli == nil {
+		return nil, nil, nil, nil
+	}
+	match := func(ci ssa.CallInstruction) string {
+		cc := ci.Common()
+		switch {
+		case cc.IsInvoke() && cc.Method.Name() == "Open":
+			return "open"
+		case cc.StaticCallee() != nil && cc.StaticCallee() == entries["db.PlanBulkUpdate"]:
+			return "plan"
+		case cc.StaticCallee() != nil && cc.StaticCallee() == entries["db.BulkUpdate"]:
+			return "bulk"
+		}
+		return ""
+	}
+	// steps reachable from a call site (the site itself, or inside the module function it calls, three levels)
+	var within func(f *ssa.Function, d int, out map[string]*cliStep)
+	within = func(f *ssa.Function, d int, out map[string]*cliStep) {
+		if f == nil || d > 3 || !c.InModule(f) || f.Blocks == nil {
+			return
+		}
+		for _, ci := range callsIn(f) {
+			call, ok := ci.(*ssa.Call)
+			if !ok {
+				continue
+			}
+			if k := match(ci); k != "" {
+				if out[k] == nil {
+					out[k] = &cliStep{nil, call, f}
+				}
+				continue
+			}
+			within(ci.Common().StaticCallee(), d+1, out)
+		}
+	}
+	cur := cli
+	for depth := 0; depth < 4; depth++ {
+		found := map[string]*cliStep{}
+		var single *ssa.Function // a callee through which all three are reached
+		for _, ci := range callsIn(cur) {
+			call, ok := ci.(*ssa.Call)
+			if !ok {
+				continue
+			}
+			if k := match(ci); k != "" {
+				if found[k] == nil {
+					found[k] = &cliStep{call, call, cur}
+				}
+				continue
+			}
+			sub := map[string]*cliStep{}
+			within(ci.Common().StaticCallee(), 1, sub)
+			if len(sub) == 3 {
+				single = ci.Common().StaticCallee()
+			}
+			for k, st := range sub {
+				if found[k] == nil {
+					st.site = call
+					found[k] = st
+				}
+			}
+		}
+		if single != nil && found["open"] != nil && found["open"].site == found["bulk"].site {
+			cur = single
+			continue
+		}
+		return cur, found["open"], found["plan"], found["bulk"]
+	}
+	return cur, nil, nil, nil
+}
+
+// inFrame evaluates f with the provenance bindings of st's owner as reached from host (identity when the step sits in host).
+func (st *cliStep) originsIn(pv *prov, host *ssa.Function, v ssa.Value) []string {
+	if st.owner == host {
+		return pv.Origins(v)
+	}
+	var out []string
+	pv.inFrames(host, 4, nil, func(fr frame) {
+		if fr.fn == st.owner && out == nil {
+			out = pv.here(v)
+		}
+	})
+	return out
 }
